@@ -132,8 +132,16 @@ Hypothesis re_zero : re z0 = z0.
 Hypothesis im_zero : im z0 = z0.
 Hypothesis re_add : forall x y, re (add x y) = add (re x) (re y).
 Hypothesis im_add : forall x y, im (add x y) = add (im x) (im y).
+Ltac simp0 :=
+  match goal with
+  | |- context [mul z0 ?x] => replace (mul z0 x) with z0 by ring
+  | |- context [mul ?x z0] => replace (mul x z0) with z0 by ring
+  | |- context [add z0 ?x] => replace (add z0 x) with x by ring
+  | |- context [add ?x z0] => replace (add x z0) with x by ring
+  | |- context [opp z0] => replace (opp z0) with z0 by ring
+  end.
 Ltac zero_laws :=
-  repeat first [ rewrite Dx_zero | rewrite DX_zero | rewrite conj_zero | rewrite conj_one
+  repeat first [ simp0 | rewrite Dx_zero | rewrite DX_zero | rewrite conj_zero | rewrite conj_one
                | rewrite conj_add | rewrite conj_mul | rewrite conj_sub | rewrite conj_opp
                | rewrite conj_div | rewrite conj_invol | rewrite re_zero | rewrite im_zero
                | rewrite re_add | rewrite im_add ].
